@@ -13,6 +13,7 @@
    Standard library only; everything is computable and extracts with
    ExtrOcamlBasic. *)
 From Avfs Require Import Base.
+Set Implicit Arguments.
 
 (* ------------------------------------------------------------------ *)
 (* method sets of avfs.VFS and avfs.File (flattened), plus the two exported
